@@ -9,7 +9,8 @@ import (
 // C12 — Close stops everything and strands no caller.
 //
 // World: 1 full-stack node. Symbolic: send-buffer size (0/1), node state at the time of the
-// calls (connected / never connected: peer down at creation / reconnecting: peer stopped), the
+// calls (connected / never connected: peer down at creation / reconnecting: peer stopped /
+// dial failed at creation: no connection object at all), the
 // type of one in-flight call, the instant of Close relative to it (any scheduling point), an
 // optional second concurrent Close. After Close returned one more call of symbolic type is
 // issued with a fresh context. At quiescence (timers may fire; peer streams fail once their
@@ -20,6 +21,7 @@ const (
 	c12Connected = iota
 	c12NeverConnected
 	c12Reconnecting
+	c12DialFailed // the (blocking) dial at creation failed: the node has a channel but no connection
 	c12NStates
 )
 
@@ -29,8 +31,16 @@ func VerifC12(sendBuffer, secondClose, mode, freezeTimers, fewKinds int) {
 	if sendBuffer > 0 {
 		opts = append(opts, WithSendBufferSize(uint(sendBuffer)))
 	}
-	w := vMixed(1, 0, []bool{state != c12NeverConnected}, opts...)
+	vDialRefused = state == c12DialFailed
+	w := vMixed(1, 0, []bool{state != c12NeverConnected && state != c12DialFailed}, opts...)
+	vDialRefused = false
 	p := w.peers[0]
+	dialsLater := false
+	if state == c12DialFailed && vChoice("dial-later", 2) == 1 {
+		// later dials get through (the peer still does not serve streams)
+		p.refuse = false
+		dialsLater = true
+	}
 	if state == c12Reconnecting {
 		p.stop()
 	}
@@ -76,7 +86,7 @@ func VerifC12(sendBuffer, secondClose, mode, freezeTimers, fewKinds int) {
 		vFail("C12.in-flight-call-stranded")
 	}
 	vAssert(vLiveGoroutines(gorumsPkg) == 0, "C12.goroutine-left-after-close")
-	vKnown("F-C12-connleak", state == c12NeverConnected && mode == 0)
+	vKnown("F-C12-connleak", (state == c12NeverConnected || dialsLater) && mode == 0)
 	vAssert(p.conns == 0, "C12.connection-left-open")
 	if mode == 0 {
 		vAssert(w.routersLeft() == 0, "C18.routing-entry-left")
